@@ -451,6 +451,9 @@ class Interp:
                             tgt = x
                             break
                     work.append((tgt, st))
+                elif getattr(self.dom, "split_switch", None) is not None and d is not TOP:
+                    for tgt, st2 in self.dom.split_switch(self, d, t, st):
+                        work.append((tgt, st2))
                 else:
                     seen = set()
                     for v, x in t["targets"]:
